@@ -509,3 +509,45 @@ func GlobalStores(g *ssa.Global) []ssa.Value {
 	}
 	return out
 }
+
+// AllPathsGuarded reports whether every path from the function entry to the
+// start of block b takes at least one branch edge accepted by ok(cond, taken)
+// (negations normalised away). Unlike GuardsAt it understands disjunctions:
+// `case A, B:` bodies and `x == nil || y == nil` returns.
+func AllPathsGuarded(b *ssa.BasicBlock, ok func(cond ssa.Value, taken bool) bool) bool {
+	entry := b.Parent().Blocks[0]
+	seen := map[*ssa.BasicBlock]bool{}
+	var walk func(blk *ssa.BasicBlock) bool
+	walk = func(blk *ssa.BasicBlock) bool {
+		if blk == entry {
+			return false // reached the entry without a guard
+		}
+		if seen[blk] {
+			return true // loop: decided by the other paths
+		}
+		seen[blk] = true
+		if len(blk.Preds) == 0 {
+			return true // unreachable block
+		}
+		for _, p := range blk.Preds {
+			if ifi, isIf := p.Instrs[len(p.Instrs)-1].(*ssa.If); isIf && len(p.Succs) == 2 && p.Succs[0] != p.Succs[1] {
+				cond, taken := ifi.Cond, p.Succs[0] == blk
+				for {
+					u, isNot := cond.(*ssa.UnOp)
+					if !isNot || u.Op != token.NOT {
+						break
+					}
+					cond, taken = u.X, !taken
+				}
+				if ok(cond, taken) {
+					continue
+				}
+			}
+			if !walk(p) {
+				return false
+			}
+		}
+		return true
+	}
+	return walk(b)
+}
